@@ -720,6 +720,7 @@ pub fn execute(case: &W2Case, cache_checks: bool, per_insertion: bool) -> crate:
             }
             out.cache.order_dependent_entries_skipped += st.0.order_dependent_entries_skipped;
             out.cache.order_dependent_keys.extend(st.0.order_dependent_keys.iter().cloned());
+            out.cache.keys_differing_between_passes.extend(st.0.keys_differing_between_passes.iter().cloned());
             out.loop_cache_issues.extend(st.1.iter().cloned());
             out.insertions_observed = st.2;
         });
@@ -944,7 +945,8 @@ impl W2Scenario {
                     }
                     rec.count("cache.handovers_not_at_fixpoint", o.cache.not_fixpoint);
                     rec.count("cache.order_dependent_entries_skipped", o.cache.order_dependent_entries_skipped);
-                    rec.count("cache.order_dependent_keys_learned", o.cache.order_dependent_keys.len() as u64);
+                    rec.count("cache.order_dependent_keys_excused", o.cache.order_dependent_keys.len() as u64);
+                    rec.count("cache.keys_differing_between_passes_compared", o.cache.keys_differing_between_passes.len() as u64);
                     rec.count("cache.fitness_twins_compared", o.cache.fitness_compared);
                     rec.count("cache.insertions_observed", o.insertions_observed);
                     rec.count("cache.cases_with_per_insertion_monitor", per_insertion as u64);
